@@ -347,7 +347,7 @@ PROPS['C01'] = dict(
     technique='Verus contracts: (i) on the integer statements sliced from the real NoiseInfos::target_limb_and_scale (where and at which scale the fresh error is injected); (ii) a dependency-flow contract on the real text of glwe_decrypt (poulpy-core/src/decryption/glwe.rs) over assumed flow contracts of the transform-domain HAL operations',
     level_text='Unbounded. (i) for every precision k in 1..=2^32 and every radix 1..=64 the error limb is ceil(k/base2k)-1 and the scale exponent is (limb+1)*base2k-k in [0, base2k): the error enters exactly at precision k. (ii) for every rank, limb count and ring degree, every limb of the decrypted plaintext depends on EXACTLY every active limb of every ciphertext column and every secret column: the phase is accumulated at the full ciphertext precision (no low limb is dropped before the final normalisation, which would cost more than the one unit of rounding the property allows), nothing of the scratch arena or of the previous plaintext contents reaches it, limbs beyond the plaintext size are untouched, no panic, and a scratch of exactly glwe_decrypt_tmp_bytes suffices.',
     level_note='(ii) is a statement about which inputs reach the output, not about values: that the accumulated phase equals message + error needs exact DFT products (C07) and is undecided, as are the encryption side, the public-key 1-norm bound, the sampling distribution and the compressed variants.  LWE (core_lwe_encrypt): encryption and decryption are under VALUE-level contracts over abstract HAL value functions -- the decrypted limbs are hal_normalize(pt radix, 0, ct radix, phase) with phase_i = b_i + <a_i, s>, for every pair of radices. The f64 exp2 of the exponent is dropped by the slice in (i).',
-    units=[V('core_glwe_encrypt'), V('core_lwe_encrypt'), V('noise', lemmas=['c01_target_limb_and_exponent']), V('core_decrypt'),
+    units=[V('core_glwe_encrypt_api'), V('core_glwe_encrypt'), V('core_lwe_encrypt'), V('noise', lemmas=['c01_target_limb_and_exponent']), V('core_decrypt'),
            K('poulpy-cpu-ref', 'verif_kani::c01_tailcut', ['c01_tailcut_fill_dist__n2', 'c01_tailcut_add_dist__n2', 'c01_tailcut_fill_normal__n2', 'c01_tailcut_add_normal__n2'], cls='bounded', timeout=1200,
              bound='2 coefficients, at most 2 rejected draws in total, tail cut 3.2 (= sigma, the tightest admissible), draws nondeterministic finite f64 in [-1000, 1000] from a scripted source',
              functions=['znx_fill_dist_f64_ref', 'znx_add_dist_f64_ref', 'znx_fill_normal_f64_ref', 'znx_add_normal_f64_ref (rejection sampling: each coefficient is the rounded FIRST in-bound draw, nothing beyond it is consumed; no error exceeds the bound)'])],
@@ -362,7 +362,7 @@ PROPS['C06'] = dict(
     technique='Kani contract check of the real uniform sampling kernels with the ChaCha8 stream abstracted to a symbolic tape: range, bijection on the low bits, one draw per coefficient, column frame; Verus contracts on the real text of Source::next_u64n, znx_fill_uniform_ref and vec_znx_fill_uniform_ref (unbounded in N and limb count): which stream word lands in which coefficient',
     level_text='Unbounded (Verus): coefficient k of limb j of the filled column is the balanced digit of stream word pos + j*N + k, the source advances by exactly N*size words, no other limb is written -- the mask is a function of the mask seed and the stream position only. Complete in stream values and radix (1..=62/63), bounded in shape (N=2, size 2) (Kani): every mask limb lies in [-2^(b-1), 2^(b-1)) and is a bijective image of the low b bits of exactly one stream word, coefficients consume the stream in order (limb-major), other columns are untouched; next_u64n never rejects for power-of-two bounds.',
     level_note='Statistical claims (sigma of the error, uniformity of ChaCha8 itself) and seed separation of the encryption routines are not contract properties / not covered; Source::new is abstracted (cpuid).',
-    units=[V('core_key_encrypt'), V('core_ksk_encrypt'), V('core_lwe_encrypt'), V('sampling'), V('core_encrypt'), V('cbt_key_encrypt'), V('core_glwe_encrypt'),
+    units=[V('core_glwe_encrypt_api'), V('core_key_encrypt'), V('core_ksk_encrypt'), V('core_lwe_encrypt'), V('sampling'), V('core_encrypt'), V('cbt_key_encrypt'), V('core_glwe_encrypt'),
            K('poulpy-hal', 'verif_kani', ['c06_next_u64n_power_of_two', 'c06_vec_znx_fill_uniform__n2_size2'], cls='complete', timeout=900, functions=['Source::next_u64n', '<VecZnx as FillUniform>::fill_uniform']),
            K('poulpy-cpu-ref', 'verif_kani', ['c06_vec_znx_fill_uniform_ref__n2_size2'], cls='complete', timeout=900, functions=['znx_fill_uniform_ref', 'vec_znx_fill_uniform_ref'])],
     trusted_base=VERUS_TRUST + ['Source reduced to (seed, words drawn) in the Verus unit'],
